@@ -307,7 +307,7 @@ impl SubRule {
                 self.context_match_structure(segs, stress, tone, var, word, pos, forwards)
             },
             ParseElement::Variable(vt, mods) => self.context_match_var(vt, mods, word, pos, forwards, state.position),
-            ParseElement::Set(s) => self.context_match_set(s, word, pos, forwards),
+            ParseElement::Set(s) => self.context_match_set(states, state_index, word, pos, forwards, s),
             ParseElement::Optional(opt_states, min, max) => self.context_match_option(states, state_index, word, pos, forwards, opt_states, *min, *max),
             ParseElement::Ellipsis => self.context_match_ellipsis(states, state_index, word, pos, forwards),
             
@@ -578,8 +578,11 @@ impl SubRule {
         Ok(false)
     }
 
-    fn context_match_set(&self, set: &[Item], word: &Word, pos: &mut SegPos, forwards: bool) -> Result<bool, RuleRuntimeError> {
+    /// An alternative of the set counts when the rest of the environment matches behind it: if it does not, the next alternative is tried
+    /// (`_{$, t}o` on /a.to/: the boundary is there, but /o/ does not follow it; /t/ is there as well, and /o/ follows it)
+    fn context_match_set(&self, states: &[Item], state_index: &mut usize, word: &Word, pos: &mut SegPos, forwards: bool, set: &[Item]) -> Result<bool, RuleRuntimeError> {
         let back_pos= *pos;
+        let back_state = *state_index;
         let back_alphas = self.alphas.borrow().clone();
         let back_varlbs = self.variables.borrow().clone();
         
@@ -587,6 +590,14 @@ impl SubRule {
             let res = match &s.kind {
                 ParseElement::Variable(vt, mods) => self.context_match_var(vt, mods, word, pos, forwards, s.position),
                 ParseElement::Ipa(seg, mods) => if self.context_match_ipa(seg, mods, word, *pos, s.position)? {
+                    // a length modifier speaks about the whole long segment, which is then matched as a whole
+                    if mods.as_ref().is_some_and(|m| m.suprs.length.iter().any(|l| l.is_some())) {
+                        let mut seg_length = word.seg_length_at(*pos);
+                        while seg_length > 1 {
+                            pos.increment(word);
+                            seg_length -= 1;
+                        }
+                    }
                     pos.increment(word);
                     Ok(true)
                 } else {Ok(false)},
@@ -597,7 +608,20 @@ impl SubRule {
                 _ => unimplemented!(),
             };
             if res? {
-                return Ok(true)
+                // the rest of this side of the environment, behind this alternative
+                *state_index = back_state + 1;
+                let mut rest = true;
+                while *state_index < states.len() {
+                    if !self.context_match(states, state_index, word, pos, forwards, false)? {
+                        rest = false;
+                        break;
+                    }
+                    *state_index += 1;
+                }
+                if rest {
+                    return Ok(true)
+                }
+                *state_index = back_state;
             }
             *pos = back_pos;
             // TODO: Deal with these clones
